@@ -305,3 +305,29 @@ func Run(tier string) {
 	run.Add("call_sequences", total)
 	run.Finish()
 }
+
+// OpensWhenAddressed is the positive side, judged under C01: a file addressed to the declared key (alone, or among
+// other recipients in any position) is opened by the passphrase-protected identity when the right passphrase is given,
+// on a fresh identity value and again on the same value. (C19 itself speaks only about prompts and history; there a
+// refusal that is the same with and without history is recorded as drift.)
+func OpensWhenAddressed(run *vk.Run) {
+	rng := mrand.New(mrand.NewSource(run.Seed + 19))
+	for _, typ := range []string{"ed25519", "rsa"} {
+		m := mkMaterial(typ, rng)
+		for _, f := range [][]string{{"D"}, {"X", "D"}, {"D", "U"}, {"U", "D", "X"}} {
+			var prompts int
+			var answer string
+			id := newIdentity(m, "D", &prompts, &answer)
+			for round := 0; round < 2; round++ {
+				out := realCall(id, m, &call{File: f, Answer: "right"}, &prompts, &answer)
+				run.Eval(1)
+				if out != "ok" {
+					run.Violation(fmt.Sprintf("C01:listed-recipient-cannot-decrypt:encrypted-ssh-%s/%s/round%d", typ, strings.Join(f, ""), round+1),
+						fmt.Sprintf("a file for recipients %v is not opened by the passphrase-protected %s identity of D with the right passphrase: %s", f, typ, out),
+						map[string]interface{}{"check": "C01.encssh", "type": typ, "file": f})
+				}
+			}
+			run.Distinct("encssh:" + typ + "/" + strings.Join(f, ""))
+		}
+	}
+}
